@@ -72,6 +72,8 @@ type World struct {
 	HaltOnBlockPanic bool // C37: report instead of aborting quietly
 	WantDigest       bool // compute TxResult.DigestBefore/After (expensive)
 	LastTxEvents     sdk.Events
+	EndBlockEvents   sdk.Events // events emitted by the last EndBlock / BeginBlock (see NextBlock)
+	BeginBlockEvents sdk.Events
 	txSeq            int
 }
 
@@ -184,7 +186,11 @@ func (w *World) guarded(phase string, f func()) {
 
 // NextBlock ends the current block and begins the next one dt later.
 func (w *World) NextBlock(dt time.Duration) {
+	nBefore := len(w.Ctx.EventManager().Events())
 	w.guarded("EndBlock", func() { testkeeper.EndBlock(w.Ctx, w.K) })
+	if evs := w.Ctx.EventManager().Events(); len(evs) >= nBefore {
+		w.EndBlockEvents = append(sdk.Events(nil), evs[nBefore:]...)
+	}
 	ctx := testkeeper.UpdateBlockCtx(sdk.WrapSDKContext(w.Ctx), w.K, dt)
 	hdr := ctx.BlockHeader()
 	hdr.ChainID = LavaChainID
@@ -194,6 +200,7 @@ func (w *World) NextBlock(dt time.Duration) {
 	ctx = ctx.WithBlockHeader(hdr).WithHeaderHash(hash).WithEventManager(sdk.NewEventManager())
 	w.Ctx = ctx
 	w.guarded("BeginBlock", func() { testkeeper.NewBlock(w.Ctx, w.K) })
+	w.BeginBlockEvents = w.Ctx.EventManager().Events()
 	w.R.SimSpan += int64(dt)
 	for _, h := range w.AfterBlock {
 		h(w)
@@ -360,3 +367,15 @@ func errClass(err error) string {
 }
 
 var _ = abci.RequestBeginBlock{}
+
+// BlockEmitted tells whether the last EndBlock or BeginBlock emitted an event of that type.
+func (w *World) BlockEmitted(eventType string) bool {
+	for _, evs := range []sdk.Events{w.EndBlockEvents, w.BeginBlockEvents} {
+		for _, e := range evs {
+			if e.Type == eventType {
+				return true
+			}
+		}
+	}
+	return false
+}
